@@ -126,22 +126,24 @@ class C03(Check):
     prop_module = "PoxModel.Properties.C03"
     lean_targets = ["drv_c03"]
     driver = "drv_c03"
-    # the code as it stands (Variant.repaired = /repo HEAD) first; then the statements for every variant / history; last the reverted tree
+    # the code as it stands (Variant.repaired = /repo HEAD, Variant.full = HEAD + the D36 patch) first; then the statements for every variant / history; last the reverted tree
     # (Variant.head: regression witnesses).  `lookup_stateless` is definitional (restates the model) and deliberately not listed.
     theorems = ["Pox.C03.matches_iff_repaired", "Pox.C03.extract_ok_repaired", "Pox.C03.lookup_spec_wire_repaired",
                 "Pox.C03.lookup_spec_wire_literal_repaired", "Pox.C03.miss_iff_wire_repaired", "Pox.C03.history_lookup_wire_repaired",
                 "Pox.C03.history_lookup_sequence_wire", "Pox.C03.exact_outranks_repaired", "Pox.C03.exact_iff_repaired",
                 "Pox.C03.table_sorted_repaired", "Pox.C03.subsumes_iff_repaired", "Pox.C03.flow_from_packet_matches_repaired",
                 "Pox.C03.flow_from_packet_exact_repaired", "Pox.C03.flowOk_repaired",
+                "Pox.C03.matches_iff_full", "Pox.C03.extract_ok_full", "Pox.C03.lookup_spec_wire_full", "Pox.C03.history_lookup_wire_full", "Pox.C03.subsumes_iff_full",
+                "Pox.C03.flow_from_packet_full", "Pox.C03.flow_from_packet_exact_full", "Pox.C03.flowOk_full",
                 "Pox.C03.history_sorted", "Pox.C03.step_preserves_sorted", "Pox.C03.add_entry_total_by", "Pox.C03.add_position",
                 "Pox.C03.removal_sublist", "Pox.C03.history_exact_first", "Pox.C03.history_lookup", "Pox.C03.history_lookup_wire",
                 "Pox.C03.matches_iff_v", "Pox.C03.extract_ok_v", "Pox.C03.exact_iff_v", "Pox.C03.subsumes_iff_v",
-                "Pox.C03.flow_from_packet_matches_v", "Pox.C03.spec_frags_irrelevant", "Pox.C03.subsumes_iff_forall", "Pox.C03.matches_tos_defect",
+                "Pox.C03.flow_from_packet_matches_v", "Pox.C03.spec_frags_irrelevant", "Pox.C03.subsumes_iff_forall",
                 "Pox.C03.irregular_l4_witness", "Pox.C03.irregular_l3_witness",
                 "Pox.C03.table_sorted", "Pox.C03.add_entry_total", "Pox.C03.exact_outranks", "Pox.C03.lookup_spec", "Pox.C03.miss_iff",
                 "Pox.C03.extract_ok", "Pox.C03.matches_iff", "Pox.C03.lookup_spec_wire", "Pox.C03.miss_iff_wire", "Pox.C03.flow_from_packet_matches",
                 "Pox.C03.flow_from_packet_hit", "Pox.C03.flow_from_packet_exact_iff", "Pox.C03.flow_from_packet_exact", "Pox.C03.subsumes_iff",
-                "Pox.C03.matches_prereq_defect", "Pox.C03.extract_arp_defect", "Pox.C03.flow_from_packet_exact_defect",
+                "Pox.C03.matches_tos_defect", "Pox.C03.matches_prereq_defect", "Pox.C03.extract_arp_defect", "Pox.C03.flow_from_packet_exact_defect",
                 "Pox.C03.exact_outranks_defect"]
     anchors = ()          # computed in setup() from the source: the bodies of ANCHORED (line numbers move with every fix commit)
     ANCHORED = {"pox/openflow/libopenflow_01.py": {"ofp_match": ["from_packet", "get_nw_dst", "get_nw_src", "_normalize_wildcards", "_unwire_wildcards",
@@ -236,7 +238,16 @@ class C03(Check):
         ma, mb = of.ofp_match(), of.ofp_match(); ma.unpack(pack_rec(a), 0, flow_mod=True); mb.unpack(pack_rec(b), 0, flow_mod=True)
         te = self.TableEntry(priority=5, match=ma, actions=[], now=0)
         self.strict_both_ways = bool(te.is_matched_by(mb, priority=5, strict=True)) and bool(te.is_matched_by(ma, priority=5, strict=True))
-        return {"arpLow8": arp, "prereqExact": bool(nwp), "exactSig": bool(m2.is_exact)}
+        # D36: a flow nw_tos = 0 against a packet with ToS 0x02 (ECT(0)), and what from_packet extracts from it
+        tcp_ecn = bytes.fromhex("000000000002" "000000000001" "0800" "4502002a00010000400600000a0101010a020202" "03e80050" "00000000" "00000000" "50000001" "00000000" "7879")
+        pme = of.ofp_match.from_packet(self.pkt.ethernet(tcp_ecn), 1, spec_frags=True)
+        rt = [mkwild([f for f in FLAG_FIELDS if f not in (DL_TYPE, TOS)], 32, 32)] + [0] * 12; rt[DL_TYPE] = 0x0800
+        mt = of.ofp_match(); mt.unpack(pack_rec(rt), 0, flow_mod=True)
+        hit = bool(mt.matches_with_wildcards(pme, consider_other_wildcards=False))
+        if hit and pme.nw_tos == 0: tos = True
+        elif not hit and pme.nw_tos == 2: tos = False
+        else: raise RuntimeError("ToS witness: match=%r extracted nw_tos=%r (neither known behaviour)" % (hit, pme.nw_tos))
+        return {"arpLow8": arp, "prereqExact": bool(nwp), "exactSig": bool(m2.is_exact), "tosDscp": tos}
 
     def shape_variant(self):
         """flag -> True/False when the source has one of the two known statement shapes, else None"""
@@ -267,11 +278,11 @@ class C03(Check):
         for k, v in shape.items():
             if v is not None and v != probe[k]:
                 raise RuntimeError("ofp_match: the source has the %s shape of repair %s but behaves otherwise on the witness input" % (v, k))
-        self.variant_source = {k: ("shape+probe" if shape[k] is not None else "probe") for k in probe}
-        return [probe["arpLow8"], probe["prereqExact"], probe["exactSig"]]
+        self.variant_source = {k: ("shape+probe" if shape.get(k) is not None else "probe") for k in probe}
+        return [probe["arpLow8"], probe["prereqExact"], probe["exactSig"], probe["tosDscp"]]
 
     def extra_evidence(self):
-        return {"code_variant": dict(zip(["arpLow8", "prereqExact", "exactSig"], self.variant)), "code_variant_decided_by": self.variant_source,
+        return {"code_variant": dict(zip(["arpLow8", "prereqExact", "exactSig", "tosDscp"], self.variant)), "code_variant_decided_by": self.variant_source,
                 "strict_test_both_ways": self.strict_both_ways}
 
     def compute_anchors(self):
